@@ -13,7 +13,7 @@ import subprocess
 import vlib
 
 LEVEL = "proof"
-FORMATS = ["mod", "s3m"]
+FORMATS = ["mod", "s3m", "xm"]
 MANIFEST = dict(
     category="proof",
     text="Lean 4 theorems (XmpProps.C19) over an independent MOD/S3M/XM/IT encoder `write` and a loader model `read`: "
@@ -96,6 +96,19 @@ def first_diff(a, b):
     if len(a) != len(b):
         return "dump has %d lines, expected %d" % (len(b), len(a)), "lines"
     return None, None
+
+
+def classify(fmt, d, field, body, meta):
+    """Specific signatures for the known end-of-file defects of the XM loader."""
+    if fmt == "xm":
+        nins = sum(1 for l in body if l.startswith("ins "))
+        last = [l for l in body if l.startswith("ins %d " % (nins - 1))]
+        if field == "ins" and d.startswith("ins %d field#3" % (nins - 1)) and d.endswith("got -") and \
+                "emptyIns=29" in (meta.get("opts") or "") and last and last[0].split(" ")[2] == "0":
+            return "last-empty-instrument-29-byte-header:name-lost"
+        if field == "smp" and "field#9" in d and d.endswith("got null"):
+            return "last-sample-shorter-than-8-bytes-at-eof:pcm-dropped"
+    return field
 
 
 def mutate(rng, data, fmt):
@@ -210,6 +223,7 @@ def run(ck):
                 continue
             d, field = first_diff(canon(fmt, body), canon(fmt, rbody))
             if d:
+                field = classify(fmt, d, field, body, meta)
                 ck.violation("oracle:%s:%s" % (fmt, field), {"fmt": fmt, "hex": data.hex(), "opts": meta.get("opts"), "diff": d, "expected_dump": body},
                              "loaded %s module differs from the encoded abstract song: %s ; opts %s" % (fmt, d, meta.get("opts")))
             else:
